@@ -487,6 +487,12 @@ func (s *startupCoordinator) authenticateHandshake(ctx context.Context, authFram
 		return fmt.Errorf("authentication required (using %q)", authFrame.class)
 	}
 
+	if s.conn.version < protoVersion2 {
+		// AUTH_RESPONSE / AUTH_CHALLENGE / AUTH_SUCCESS only exist since protocol v2;
+		// protocol v1 authenticates with CREDENTIALS, which is not implemented.
+		return fmt.Errorf("gocql: authentication is not supported with protocol version %d, use protocol version 2 or later", s.conn.version)
+	}
+
 	resp, challenger, err := s.conn.auth.Challenge([]byte(authFrame.class))
 	if err != nil {
 		return err
